@@ -18,6 +18,11 @@ def scene(rnd, n_est, n_gt, fpv):
                                        frame="base_link", uuid=str(i), z=rnd.choice([0.0, 0.0, 0.9, -0.6]))
     est = [mk(LABELS, i, rnd.choice([0.2, 0.5, 0.9])) for i in range(n_est)]
     gt = [mk(GT_LABELS if fpv else LABELS, 100 + i, 1.0) for i in range(n_gt)]
+    # ground truths come from a dataset: their labels keep the dataset's spelling and attributes, which the estimates' labels do not share
+    for g in gt:
+        if rnd.random() < 0.5:
+            g["raw_name"] = "vehicle." + g["label"]
+            g["attributes"] = rnd.choice([[], ["vehicle_state.moving"]])
     if rnd.random() < 0.3 and est and gt:       # mixed frames: never paired
         rnd.choice(est + gt)["frame"] = "map"
     # look-alikes: a second object with the same time, label and pose (value-equal under DynamicObject.__eq__) but another size or frame —
